@@ -381,7 +381,7 @@ Definition lm_step (l : lstate) (o : op) : option lstate :=
       if kfits (N.to_nat k) w then
         if negb (length bytes =? N.to_nat k) then Some (lemit l [2%N])
         else match lparse C bytes with
-             | inr b => Some (lemit l [1%N; b])
+             | inr _ => Some (lemit l [1%N])
              | inl xs => lk_make l (N.to_nat k) w xs
              end
       else None
